@@ -35,3 +35,57 @@ Definition zmeqb := meqb zi_eqb.
 Definition zveqb := veqb zi_eqb.
 Definition zint (z : Z) : Zi := (z, 0%Z).
 Definition zscal (z : Z) (M : mat Zi) : mat Zi := mscal Ziops (zint z) M.
+
+(* ---- instantiated names used by the generated correspondence files *)
+Definition z_vectorize := vectorize Ziops.
+Definition z_vectorize_sv := vectorize_sv Ziops zi_conj.
+Definition z_unvectorize := unvectorize Ziops.
+Definition z_reshuffle := reshuffle Ziops.
+Definition z_to_choi := to_choi Ziops zi_conj.
+Definition z_kraus_to_choi := kraus_to_choi Ziops zi_conj.
+Definition z_to_liouville := to_liouville Ziops zi_conj.
+Definition z_kraus_to_liouville := kraus_to_liouville Ziops zi_conj.
+Definition z_kraus_full := kraus_full Ziops.
+Definition z_pauli_mat := pauli_mat Ziops zP.
+Definition z_pauli_basis_vec := pauli_basis_vec Ziops zP.
+Definition z_comp_basis_to_pauli := comp_basis_to_pauli Ziops zi_conj zP.
+Definition z_pauli_to_comp_basis := pauli_to_comp_basis Ziops zP.
+Definition z_liouville_to_pauli := liouville_to_pauli Ziops zi_conj zP.
+Definition z_pauli_to_liouville := pauli_to_liouville Ziops zi_conj zP.
+Definition z_choi_to_pauli := choi_to_pauli Ziops zi_conj zP.
+Definition z_choi_to_chi := choi_to_chi Ziops zi_conj zP.
+Definition z_kraus_to_pauli := kraus_to_pauli Ziops zi_conj zP.
+Definition z_kraus_to_chi := kraus_to_chi Ziops zi_conj zP.
+Definition z_liouville_to_chi := liouville_to_chi Ziops zi_conj zP.
+Definition z_pauli_to_choi := pauli_to_choi Ziops zi_conj zP.
+Definition z_pauli_to_chi := pauli_to_chi Ziops zi_conj zP.
+Definition z_chi_to_choi := chi_to_choi Ziops zi_conj zP.
+Definition z_chi_to_liouville := chi_to_liouville Ziops zi_conj zP.
+Definition z_chi_to_pauli := chi_to_pauli Ziops zi_conj zP.
+Definition z_to_pauli_liouville := to_pauli_liouville Ziops zi_conj zP.
+Definition z_to_pauli_liouville_fixed := to_pauli_liouville_fixed Ziops zi_conj zP.
+Definition z_to_chi := to_chi Ziops zi_conj zP.
+Definition z_kraus_to_stinespring := kraus_to_stinespring Ziops zi_conj.
+Definition z_stinespring_to_kraus := stinespring_to_kraus Ziops.
+Definition z_stinespring_to_choi := stinespring_to_choi Ziops zi_conj.
+Definition z_stinespring_to_liouville := stinespring_to_liouville Ziops zi_conj.
+Definition z_stinespring_to_pauli := stinespring_to_pauli Ziops zi_conj zP.
+Definition z_stinespring_to_chi := stinespring_to_chi Ziops zi_conj zP.
+Definition z_qn_from_operator := qn_from_operator Ziops.
+Definition z_qn_from_operator_inv := qn_from_operator_inv Ziops.
+Definition z_qn_full := qn_full Ziops zi_conj.
+Definition z_qn_apply := qn_apply Ziops.
+Definition z_qn_apply_pure := qn_apply_pure Ziops zi_conj.
+Definition z_qn_link := qn_link Ziops.
+Definition z_qn_state := qn_state Ziops.
+Definition z_qn_matrix_of_state := qn_matrix_of_state Ziops.
+Definition z_mtrans := mtrans Ziops.
+(* specs *)
+Definition z_kraus_action := kraus_action Ziops zi_conj.
+Definition z_liouville_action := liouville_action Ziops.
+Definition z_choi_action := choi_action Ziops.
+Definition z_pauli_action := pauli_action Ziops zi_conj zP.
+Definition z_chi_action := chi_action Ziops zi_conj zP.
+Definition z_stinespring_action := stinespring_action Ziops zi_conj.
+Definition z_network_action := network_action Ziops.
+Definition z_mmul := mmul Ziops.
